@@ -91,6 +91,11 @@ def cases(rng, tier):
                         qs2[rng.randrange(2)] = far
                     instrs.insert(rng.randint(0, len(instrs)), {"name": "qpd_2q", "qubits": qs2,
                                                                "basis": len(bases) - 1, "label": rng.choice([None, "pre"])})
+        pre = [ins for ins in instrs if ins["name"] == "qpd_2q"]
+        if len(pre) >= 2 and rng.random() < 0.5:
+            # one pre-placed cut gate object appended at several places (circuit.append of the same instruction instance)
+            for ins in pre:
+                ins["basis"], ins["label"], ins["obj"] = pre[0]["basis"], pre[0]["label"], 0
         if big3 and mode < 0.6:
             mode = 0.1 if kind == "separate" else 0.2   # mostly automatic labels for the three-qubit family
         if kind == "separate":
